@@ -95,3 +95,11 @@ package phase1
 //@     invariant forall k int :: old(len(p.reversable)) <= k && k < len(p.reversable) ==> p.reversable[k].To != p.reversable[k].From
 //@     invariant forall k int :: old(len(p.reversable)) <= k && k < len(p.reversable) ==>
 //@       (old(p.active[now(p.reversable[k].To)]) || (p.visited[p.reversable[k].To] && !old(p.visited[now(p.reversable[k].To)])))
+
+// ---------------------------------------------------------------------------
+// the greedy breaker consults the random generator only when the documented non-deterministic option is set
+//@ func greedyProcessor.pickNode
+//@   requires len(nodes) > 0
+//@   ensures !random ==> result == nodes[len(nodes) / 2]
+//@   ensures exists k int :: 0 <= k && k < len(nodes) && result == nodes[k]
+//@   modifies nothing
